@@ -186,7 +186,36 @@ void Ctx::c01() {
             auto it = pub_receipts.find(o.id);
             std::string why = "no PUBLISH with this topic was ever received by the broker";
             bool ok = false;
-            if (it != pub_receipts.end()) {
+            if (relaxed_witness() && it != pub_receipts.end()) {
+                // The broker repeats acknowledgements in this run: an acknowledgement of an earlier exchange with the same
+                // identifier that reaches the client after this PUBLISH was handed to the transport cannot be told apart
+                // from the real one by any client. Witness: a final acknowledgement for the identifier on a connection that
+                // carried the PUBLISH, consumed by the client after the PUBLISH write began and before the handler ran.
+                why = "";
+                for (int ri : it->second) {
+                    auto& r = s.broker.recv[ri];
+                    if (!pub_matches(o, r.pkt)) { why = "received PUBLISH differs from the arguments: " + packet_str(r.pkt); continue; }
+                    uint64_t wstart = r.first_group ? s.net.groups[r.first_group - 1].seq_start : r.seq;
+                    for (auto& sp : s.broker.sent) {
+                        if (sp.conn != r.conn || sp.hostile || sp.pkt.pid != r.pkt.pid) continue;
+                        if (!sp.delivered_seq || sp.delivered_seq > d->seq || sp.delivered_seq < wstart) continue;
+                        bool final_ack = (o.qos == 1 && sp.pkt.type == PUBACK) || (o.qos == 2 && (sp.pkt.type == PUBCOMP || (sp.pkt.type == PUBREC && sp.pkt.rc >= 0x80)));
+                        if (!final_ack) continue;
+                        bool props_ok = sp.pkt.type == PUBREC || props_equal(sp.pkt.props, d->c.props);
+                        if (sp.pkt.rc == d->c.rc && props_ok) ok = true;
+                        else if (why.empty()) why = std::string(ptype_name(sp.pkt.type)) + " rc/props " + std::to_string(sp.pkt.rc) + props_str(sp.pkt.props) + " != handler " + std::to_string(d->c.rc) + props_str(d->c.props);
+                    }
+                }
+                // a QoS 2 exchange may also finish on a later connection than the one that carried the PUBLISH
+                if (!ok && o.qos == 2) {
+                    std::set<uint16_t> pids; for (int ri : it->second) pids.insert(s.broker.recv[ri].pkt.pid);
+                    uint64_t first_w = s.broker.recv[it->second.front()].seq;
+                    for (auto& sp : s.broker.sent)
+                        if (!sp.hostile && sp.pkt.type == PUBCOMP && pids.count(sp.pkt.pid) && sp.delivered_seq && sp.delivered_seq < d->seq && sp.delivered_seq > first_w &&
+                            sp.pkt.rc == d->c.rc && props_equal(sp.pkt.props, d->c.props)) ok = true;
+                }
+                if (!ok && why.empty()) why = "no acknowledgement for its packet identifier reached the client between the PUBLISH write and the handler";
+            } else if (it != pub_receipts.end()) {
                 why = "";
                 for (int ri : it->second) {
                     auto& r = s.broker.recv[ri];
@@ -246,11 +275,13 @@ void Ctx::c14() {
                 why = "";
                 for (int ri : it->second) {
                     auto& r = s.broker.recv[ri];
-                    if (r.seq > d->seq) break;
+                    if (r.seq > d->seq && !relaxed_witness()) break;
                     bool same = sub ? (r.pkt.subs == o.subs) : (r.pkt.unsubs == o.topics);
                     if (!same || !props_equal(r.pkt.props, o.props)) { why = "received request differs from the arguments: " + packet_str(r.pkt); continue; }
+                    uint64_t wstart = r.first_group ? s.net.groups[r.first_group - 1].seq_start : r.seq;
                     for (auto& sp : s.broker.sent) {
-                        if (sp.conn != r.conn || sp.hostile || sp.pkt.pid != r.pkt.pid || sp.seq < r.seq) continue;
+                        if (sp.conn != r.conn || sp.hostile || sp.pkt.pid != r.pkt.pid) continue;
+                        if (relaxed_witness() ? (sp.delivered_seq < wstart) : (sp.seq < r.seq)) continue;
                         if (sp.pkt.type != (sub ? SUBACK : UNSUBACK)) continue;
                         if (!sp.delivered_seq || sp.delivered_seq > d->seq) continue;
                         if (sp.pkt.rcs == d->c.rcs && props_equal(sp.pkt.props, d->c.props)) ok = true;
